@@ -304,3 +304,162 @@ Proof.
   destruct (Z.eqb_spec (Z.of_nat mc) 0); [lia|]. destruct (Z.ltb_spec (Z.of_nat mc) 0); [lia|].
   now rewrite Nat2Z.id.
 Qed.
+
+(* ---------- pad_ragged_arrays_to_dense_array ---------- *)
+Lemma fold_zmax_max_list l : forall x,
+  fold_left Z.max (map Z.of_nat l) (Z.of_nat x) = Z.of_nat (max_list (x :: l)).
+Proof.
+  induction l as [|y l IH]; intros x; cbn [map fold_left].
+  - unfold max_list. cbn [fold_right]. now rewrite Nat.max_0_r.
+  - rewrite <- Nat2Z.inj_max, IH. f_equal. unfold max_list. cbn [fold_right]. lia.
+Qed.
+
+Lemma skipn_repeat {A} (a : A) n k : skipn k (repeat a n) = repeat a (n - k).
+Proof.
+  revert k; induction n as [|n IH]; intros [|k]; cbn [repeat skipn Nat.sub]; try reflexivity. apply IH.
+Qed.
+
+Lemma overlay_row_blank {A} (pad : A) w r : overlay_row r (repeat pad w) = pad_row pad w r.
+Proof. unfold overlay_row, pad_row. now rewrite skipn_repeat. Qed.
+
+Lemma overlay2_blank {A} (pad : A) w a : forall h, (length a <= h)%nat ->
+  overlay2 a (repeat (repeat pad w) h) = pad2 pad h w a.
+Proof.
+  unfold pad2. induction a as [|r a IH]; intros h Hh; cbn [overlay2 map app length].
+  - now rewrite Nat.sub_0_r.
+  - destruct h as [|h]; [cbn [length] in Hh; lia|]. cbn [repeat Nat.sub].
+    rewrite overlay_row_blank, IH by (cbn [length] in Hh; lia). reflexivity.
+Qed.
+
+Lemma pad_loop {A} (pad : A) h w arrays : forall done,
+  Forall (fun a => length a <= h)%nat arrays ->
+  fold_left (fun res (ia : Z * list (list A)) => set_block res (fst ia) (snd ia))
+            (combine (map Z.of_nat (seq (length done) (length arrays))) arrays)
+            (done ++ repeat (repeat (repeat pad w) h) (length arrays))
+  = done ++ map (pad2 pad h w) arrays.
+Proof.
+  induction arrays as [|a arrays IH]; intros done Hfit; cbn [length seq map combine fold_left repeat]; [reflexivity|].
+  inversion Hfit as [|? ? Ha Hrest]; subst. cbn [fst snd]. unfold set_block at 2. rewrite Nat2Z.id.
+  rewrite firstn_app, Nat.sub_diag, firstn_all, skipn_app, Nat.sub_diag, skipn_all. cbn [firstn skipn app].
+  rewrite app_nil_r, overlay2_blank by exact Ha.
+  replace (S (length done)) with (length (done ++ [pad2 pad h w a])) by (rewrite app_length; cbn [length]; lia).
+  change (done ++ pad2 pad h w a :: repeat (repeat (repeat pad w) h) (length arrays))
+    with (done ++ [pad2 pad h w a] ++ repeat (repeat (repeat pad w) h) (length arrays)).
+  rewrite app_assoc, (IH _ Hrest), <- app_assoc. reflexivity.
+Qed.
+
+Theorem src_pad_is_model (A : Type) (arrays : list (list (list A))) (pad : A) :
+  src_pad A arrays pad = match arrays with [] => Err 27%Z | _ => Ok (pad_ragged pad arrays) end.
+Proof.
+  unfold src_pad. destruct arrays as [|a0 rest] eqn:E; [reflexivity|]. rewrite <- E.
+  set (h := max_list (map (fun a => fst (shape2 a)) arrays)).
+  set (w := max_list (map (fun a => snd (shape2 a)) arrays)).
+  assert (Hmax : np_max_axis0 (map (fun a => shape2z a) arrays) = Ok (Z.of_nat h, Z.of_nat w)).
+  { subst h w. rewrite E. cbn [map np_max_axis0 shape2z fst snd]. rewrite !map_map. cbn [fst snd].
+    rewrite <- (map_map (fun a : list (list A) => length a) Z.of_nat),
+            <- (map_map (fun a : list (list A) => length (hd [] a)) Z.of_nat), !fold_zmax_max_list. reflexivity. }
+  rewrite Hmax. cbn [res_bind].
+  rewrite (res_fold_pure _ (fun res (ia : Z * list (list A)) => set_block res (fst ia) (snd ia)))
+    by (intros s [i a]; reflexivity).
+  cbn [res_bind]. f_equal. unfold np_full3, enumerate_z. cbn [fst snd]. rewrite !Nat2Z.id.
+  apply (pad_loop pad h w arrays []).
+  apply Forall_forall. intros a Ha. apply (max_list_ge (map (fun a => fst (shape2 a)) arrays)).
+  apply in_map_iff. now exists a.
+Qed.
+
+(* the two uses: 0-padding of the means, NaN-padding of the variances (every real cell is [Some]) *)
+Corollary pad_means_py_is_source ms : pad_means_py ms = src_pad Qc ms 0%Qc.
+Proof. rewrite src_pad_is_model. destruct ms; reflexivity. Qed.
+Corollary pad_vars_py_is_source vs : pad_vars_py vs = src_pad (option Qc) (map (map (map Some)) vs) None.
+Proof. rewrite src_pad_is_model. destruct vs; reflexivity. Qed.
+
+(* ---------- dbal_fast_gaussian_scoring_heteroscedastic ---------- *)
+Lemma shape_check_plates (pls : list plate) :
+  forallb (fun ab : arr2 * arr2 => negb (shape_ne (fst ab) (snd ab))) (combine (map fst pls) (map snd pls))
+  = forallb (fun pl : plate => shape2_eqb (shape2 (fst pl)) (shape2 (snd pl))) pls.
+Proof.
+  induction pls as [|[m v] l IH]; [reflexivity|].
+  cbn [map combine forallb fst snd]. rewrite IH. unfold shape_ne. now rewrite negb_involutive.
+Qed.
+
+Theorem src_hetero_is_model orc (plates : list plate) D df idxs :
+  src_hetero orc (map fst plates) (map snd plates) D df idxs
+  = match plates with [] => Err 27%Z | _ => hetero_checked orc plates D df idxs end.
+Proof.
+  unfold src_hetero, hetero_checked.
+  rewrite (res_fold_check (fun ab : arr2 * arr2 => negb (shape_ne (fst ab) (snd ab))) 24%Z)
+    by (intros u [a b]; cbn [fst snd]; destruct (shape_ne a b); reflexivity).
+  rewrite shape_check_plates.
+  destruct plates as [|p pls]; [reflexivity|]. unfold plate, arr2 in *.
+  destruct (forallb _ (p :: pls)); cbn [negb res_bind]; [|reflexivity].
+  cbn [map pad_means_py pad_vars_py res_bind].
+  destruct (kernel_checked _ _ _ _ _ _); reflexivity.
+Qed.
+
+(* ---------- dbal_fast_gaussian_scoring_homoscedastic ---------- *)
+Lemma homo_loop (variances : arr2) (f : list arr2 -> Z * arr2 -> result (list arr2)) :
+  (forall acc ip, f acc ip =
+     dor row <- list_get variances (fst ip);
+     dor x <- np_col_times_ones row (Z.of_nat (length row)) (dim1 (snd ip));
+     Ok (acc ++ [x])) ->
+  forall preds s acc, (s + length preds <= length variances)%nat ->
+  res_fold f (combine (map Z.of_nat (seq s (length preds))) preds) acc
+  = Ok (acc ++ map (fun pv => homo_expand (fst pv) (snd pv)) (combine preds (skipn s variances))).
+Proof.
+  intros Hf preds; induction preds as [|mu preds IH]; intros s acc Hlen;
+    cbn [length seq map combine res_fold]; [now rewrite app_nil_r|].
+  cbn [length] in Hlen. rewrite Hf. cbn [fst snd].
+  destruct (skipn s variances) as [|row rest] eqn:Esk;
+    [apply (f_equal (@length _)) in Esk; rewrite skipn_length in Esk; cbn [length] in Esk; lia|].
+  assert (Hnth : nth_error variances s = Some row).
+  { rewrite <- (firstn_skipn s variances), Esk, nth_error_app2 by (rewrite firstn_length; lia).
+    rewrite firstn_length, Nat.min_l by lia. now rewrite Nat.sub_diag. }
+  unfold list_get. destruct (Z.ltb_spec (Z.of_nat s) 0) as [|_]; [lia|].
+  destruct (Z.ltb_spec (Z.of_nat s) 0) as [|_]; [lia|]. rewrite Nat2Z.id, Hnth. cbn [res_bind].
+  unfold np_col_times_ones. rewrite Z.eqb_refl. cbn [res_bind]. unfold dim1. rewrite Nat2Z.id.
+  rewrite IH by lia.
+  assert (Erest : skipn (S s) variances = rest).
+  { change (S s) with (1 + s)%nat. rewrite Nat.add_comm, <- skipn_skipn, Esk. reflexivity. }
+  rewrite Erest. cbn [combine map fst snd]. rewrite <- app_assoc. reflexivity.
+Qed.
+
+Lemma pad_vars_py_nonempty l : l <> [] -> pad_vars_py l = Ok (pad_vars l).
+Proof. destruct l; [congruence|reflexivity]. Qed.
+Lemma res_bind_ok_id {A} (x : result A) : (dor r <- x; Ok r) = x.
+Proof. destruct x; reflexivity. Qed.
+
+Lemma zeqb_of_nat a b : (Z.of_nat a =? Z.of_nat b)%Z = Nat.eqb a b.
+Proof. destruct (Nat.eqb_spec a b), (Z.eqb_spec (Z.of_nat a) (Z.of_nat b)); (reflexivity || lia). Qed.
+
+Theorem src_homo_is_model orc (preds : list arr2) (variances : arr2) D df idxs :
+  src_homo orc preds variances D df idxs
+  = match preds with
+    | [] => match variances with [] => Err 27%Z | _ => Err 25%Z end
+    | _ => homo_checked orc preds variances D df idxs
+    end.
+Proof.
+  unfold src_homo, homo_checked. unfold dim0 at 1. rewrite zeqb_of_nat. unfold arr2 in *.
+  destruct preds as [|mu0 preds0] eqn:E.
+  - destruct variances; reflexivity.
+  - rewrite <- E. assert (Hne : preds <> []) by (rewrite E; discriminate).
+    destruct (Nat.eqb_spec (length preds) (fst (shape2 variances))) as [Hlen|_]; cbn [negb]; [|reflexivity].
+    rewrite (res_fold_check (fun mu : arr2 => (dim0 mu =? dim1 variances)%Z) 26%Z)
+      by (intros u mu; destruct (dim0 mu =? dim1 variances)%Z; reflexivity).
+    assert (Hchk : forallb (fun mu : arr2 => (dim0 mu =? dim1 variances)%Z) preds
+                   = forallb (fun mu : list (list Qc) => Nat.eqb (fst (shape2 mu)) (snd (shape2 variances))) preds)
+      by (clear; induction preds as [|mu l IH]; cbn [forallb]; [reflexivity|]; rewrite IH; f_equal; unfold dim0, dim1; apply zeqb_of_nat).
+    rewrite Hchk. clear Hchk.
+    destruct (forallb _ preds); cbn [negb res_bind]; [|reflexivity].
+    assert (Hpm : pad_means_py preds = Ok (pad_means preds)) by (rewrite E; reflexivity).
+    rewrite Hpm. clear Hpm. cbn [res_bind].
+    unfold enumerate_z.
+    match goal with |- context [res_fold ?f (combine _ preds) []] =>
+      rewrite (homo_loop variances f) with (s := 0%nat);
+        [| intros acc [i mu]; reflexivity | cbn [shape2 fst] in Hlen; unfold arr2; lia]
+    end.
+    cbn [res_bind app skipn].
+    rewrite pad_vars_py_nonempty.
+    + cbn [res_bind]. apply res_bind_ok_id.
+    + cbn [shape2 fst] in Hlen. rewrite E in Hlen |- *.
+      destruct variances; [cbn [length] in Hlen; lia|discriminate].
+Qed.
